@@ -23,7 +23,8 @@ def run_one(patch, tier, seed):
                            capture_output=True, text=True)
         if r.returncode:
             return name, 'PATCH-FAILED', r.stdout + r.stderr, 0
-        env = dict(os.environ, VERIF_REPO=dst, VERIF_SEED=str(seed))
+        env = dict(os.environ, VERIF_REPO=dst, VERIF_SEED=str(seed),
+                   VERIF_REPLAY_DIR=os.path.join(tmp, 'replays'))
         t0 = time.time()
         r = subprocess.run([os.path.join(VERIF, 'check'), prop, '--tier', tier,
                             '--no-evidence'], capture_output=True, text=True,
